@@ -87,4 +87,73 @@ Section WithHash.
       destruct (clear_all hash (ms_m st) 0 (m_len (ms_m st) + length (m_slots (ms_m st))) []) as [m1 e]. cbn [fst ms_m ms_itr] in *.
       destruct Hc as (C1 & C2 & C3). split; [exact C1|]. split; [|split; [exact C3|reflexivity]]. intros k v. apply occ_zero_no_has. exact C2.
   Qed.
+
+  (* ---------- the destructor log of clear / free: every live entry is released exactly once, nothing else is ---------- *)
+  (* the entries in the order clear_all releases them *)
+  Fixpoint clear_seq (m : map) (i fuel : nat) : list (N * N) :=
+    match fuel with
+    | O => []
+    | S f =>
+        match next_occ (m_slots m) i (S (length (m_slots m))) with
+        | None => []
+        | Some j =>
+            match nth j (m_slots m) None with
+            | Some (k, v) => (k, v) :: clear_seq (m_set m (clear_slot hash (m_slots m) j) (m_len m - 1)) j f
+            | None => []
+            end
+        end
+    end.
+
+  (* what is logged is exactly that sequence: per entry the key copy (if the map duplicates keys), then the value destructor (if it has one) *)
+  Lemma clear_all_log : forall fuel m i acc,
+    snd (clear_all hash m i fuel acc) = acc ++ flat_map (fun kv => clear_evs m (fst kv) (snd kv)) (clear_seq m i fuel).
+  Proof.
+    induction fuel as [|f IH]; intros m i acc; cbn [clear_all clear_seq]; [cbn; rewrite app_nil_r; reflexivity|].
+    destruct (next_occ (m_slots m) i (S (length (m_slots m)))) as [j|]; [|cbn; rewrite app_nil_r; reflexivity].
+    destruct (nth j (m_slots m) None) as [[k v]|]; [|cbn; rewrite app_nil_r; reflexivity].
+    rewrite IH. cbn [flat_map fst snd]. rewrite <- app_assoc. reflexivity.
+  Qed.
+  Lemma clear_evs_set m s l k v : clear_evs (m_set m s l) k v = clear_evs m k v.
+  Proof. reflexivity. Qed.
+
+  Lemma clear_seq_exact : forall fuel m i, MInv hash m -> empty_below (m_slots m) i -> occ_count (m_slots m) < fuel ->
+    NoDup (List.map fst (clear_seq m i fuel)) /\ forall k v, In (k, v) (clear_seq m i fuel) <-> Has (m_slots m) k v.
+  Proof.
+    induction fuel as [|f IH]; intros m i HM He Hf; [lia|]. cbn [clear_seq].
+    pose proof (next_occ_spec (S (length (m_slots m))) (m_slots m) i ltac:(lia)) as Hs.
+    destruct (next_occ (m_slots m) i (S (length (m_slots m)))) as [j|] eqn:En.
+    - destruct Hs as (Hj & k & v & Hn & E). rewrite Hn.
+      destruct (remove_at_correct hash m j k v HM Hn) as (HM' & Hhas' & Hlen'). cbn zeta in *.
+      set (m' := m_set m (clear_slot hash (m_slots m) j) (m_len m - 1)) in *.
+      assert (He' : empty_below (m_slots m') j).
+      { intros p Hp. unfold m'. cbn [m_slots m_set]. apply clear_slot_keeps_empty; [lia|lia|].
+        destruct (Nat.lt_ge_cases p i) as [Hlt|Hge]; [exact (He p Hlt)|]. exact (next_occ_first _ _ _ _ En p ltac:(lia)). }
+      assert (Hf' : occ_count (m_slots m') < f).
+      { destruct HM as (_ & Hl & _). destruct HM' as (_ & Hl' & _). unfold m' in *. cbn [m_slots m_len m_set] in *. lia. }
+      destruct (IH m' j HM' He' Hf') as (Hnd & Hin). split.
+      + cbn [List.map fst]. constructor; [|exact Hnd]. intros Hk. apply in_map_iff in Hk. destruct Hk as ([k2 v2] & Ek & Hkv). cbn in Ek. subst k2.
+        apply Hin, Hhas' in Hkv. destruct Hkv as [Hne _]. apply Hne. reflexivity.
+      + intros k0 v0. cbn [In]. rewrite Hin, Hhas'. split.
+        * intros [E0|[_ H0]]; [injection E0 as <- <-; exists j; split; [lia|exact Hn]|exact H0].
+        * intros H0. destruct (N.eq_dec k0 k) as [->|Hne]; [|right; split; assumption].
+          left. f_equal. destruct HM as ((_ & Hd & _) & _). symmetry. eapply has_fun; [exact Hd|exact H0|]. exists j. split; [lia|exact Hn].
+    - split; [constructor|]. intros k v. split; [intros []|]. intros Hh. exfalso. eapply occ_zero_no_has; [|exact Hh]. exact (keys_nil_all_none (m_slots m) i He Hs).
+  Qed.
+
+  (* m_map_clear on a live, non-empty map: the log is one release group per live entry -- each entry once, no entry twice, nothing that
+     was not there -- followed by the return code; m_map_free logs the same *)
+  Theorem clear_releases_each_entry_once st : m_freed (ms_m st) = false -> MInv hash (ms_m st) -> m_len (ms_m st) <> 0 ->
+    exists seq, NoDup (List.map fst seq) /\ (forall k v, In (k, v) seq <-> Has (m_slots (ms_m st)) k v) /\
+                snd (m_step hash st MClear) = flat_map (fun kv => clear_evs (ms_m st) (fst kv) (snd kv)) seq ++ [ERet 0] /\
+                snd (m_step hash st MFree) = flat_map (fun kv => clear_evs (ms_m st) (fst kv) (snd kv)) seq ++ [ERet 0].
+  Proof.
+    intros Hfr HM H0. exists (clear_seq (ms_m st) 0 (m_len (ms_m st) + length (m_slots (ms_m st)))).
+    destruct (clear_seq_exact (m_len (ms_m st) + length (m_slots (ms_m st))) (ms_m st) 0 HM ltac:(intros p Hp; lia)) as (Hnd & Hin).
+    { destruct HM as (Hinv & Hl & Hload). pose proof Hinv as (Hn & _ & _). lia. }
+    split; [exact Hnd|]. split; [exact Hin|].
+    pose proof (clear_all_log (m_len (ms_m st) + length (m_slots (ms_m st))) (ms_m st) 0 []) as Hlog. cbn [app] in Hlog.
+    unfold m_step. rewrite Hfr. destruct (Nat.eqb_spec (m_len (ms_m st)) 0) as [Hz|_]; [contradiction|].
+    destruct (clear_all hash (ms_m st) 0 (m_len (ms_m st) + length (m_slots (ms_m st))) []) as [m1 e]. cbn [snd] in *. subst e.
+    split; reflexivity.
+  Qed.
 End WithHash.
